@@ -118,6 +118,13 @@ func callMenu() []callT {
 			func(t int) string {
 				return `valid "` + caseVariant(salt*3+t) + `" is not exist, You can call SetValidFn`
 			}},
+		// date/time rules with separators of their own next to one that relies on the defaults
+		{"Var(datetime custom separators)", func(t int) []interface{} {
+			return []interface{}{"2021/09/28 10.30.00", []string{"datetime='/, ,.'", fmt.Sprintf("le=%d", 5+t)}}
+		}, func(a []interface{}) string { return errText(valid.Var(a[0], a[1].([]string)...)) }, nil},
+		{"Var(datetime default separators)", func(t int) []interface{} {
+			return []interface{}{"2021-09-28 10:30:00", []string{"datetime", "date='/'|d"}}
+		}, func(a []interface{}) string { return errText(valid.Var(a[0], a[1].([]string)...)) }, nil},
 		{"Var(quoted)", func(t int) []interface{} { return []interface{}{"zz", []string{"in=('a,b'/c)|'m,n'", "re='^z,z$'"}} },
 			func(a []interface{}) string { return errText(valid.Var(a[0], a[1].([]string)...)) }, nil},
 		{"Map", func(t int) []interface{} {
@@ -564,7 +571,7 @@ func main() {
 	runner.Main(runner.Config{
 		Property:  "C11",
 		Technique: "stateless model checking of concurrent validation calls under a controlled scheduler with sync.Pool answers as choice points; solo-result oracle + Go race detector on every explored schedule",
-		Rule: "case = one harness (cache LRU(512)|LRU(1), cold|pre-warmed; 2-4 threads x 1-2 calls over an 11-call alphabet (incl. a rule name in a spelling no earlier execution used): Struct / ValidateStruct(tag b) / StructForFn / StructForFns / Struct(slice, groups, global fn) / " +
+		Rule: "case = one harness (cache LRU(512)|LRU(1), cold|pre-warmed; 2-4 threads x 1-2 calls over a 13-call alphabet (incl. a rule name in a spelling no earlier execution used): Struct / ValidateStruct(tag b) / StructForFn / StructForFns / Struct(slice, groups, global fn) / " +
 			"Var with a regex pattern new in every execution / Var with quoted rules / Map / Url / Struct on a struct type new in every execution); every schedule within the preemption+deviation bound is executed on the real code; " +
 			"per call: result = solo result, arguments unmodified; no panic/deadlock; race build: no race report; transitions = scheduling steps; non-trivial = harnesses in which a thread received a pooled object last used by another thread",
 		Assumptions: []string{"sequential consistency for race-free executions; race freedom checked by the race detector per schedule (happens-before edges inside the standard library's own pools are real and may hide a race: false negatives only)",
